@@ -32,6 +32,48 @@ static uint32_t c12_primary(Buf *b, int hier, int t, C12Obj *o, const char *why)
 }
 static void c12_flush(Buf *b, uint32_t h) { if (h) { cmd_begin(b, ST_NO_SESSIONS, CC_FlushContext); b_u32(b, h); run(b); } }
 
+
+/* Duplicate + Import: a key leaves parent A for parent B; the imported blob loads under B only and only unmodified */
+static void c12_dup_import(Buf *b) {
+    C12Obj pa, pb; int ha = rnd(3), hb = (ha + 1 + rnd(2)) % 3;
+    uint32_t A = c12_primary(b, ha, 3, &pa, "dup-parent"); if (!A) return;
+    uint32_t B = c12_primary(b, hb, 3, &pb, "dup-newparent"); if (!B) { c12_flush(b, A); return; }
+    /* duplicable HMAC key whose policy allows TPM2_Duplicate */
+    uint8_t pol[32]; { uint8_t in[40]; memset(in, 0, 32); in[32] = 0; in[33] = 0; in[34] = 0x01; in[35] = 0x6C; in[36] = 0; in[37] = 0; in[38] = 0x01; in[39] = 0x4B; unsigned int dl; EVP_Digest(in, 40, pol, &dl, EVP_sha256(), NULL); }
+    Buf t = {0}; b_u16(&t, ALG_KEYEDHASH); b_u16(&t, ALG_SHA256); b_u32(&t, 0x00040460u); b_2b(&t, pol, 32); b_u16(&t, ALG_HMAC); b_u16(&t, ALG_SHA256); b_u16(&t, 0);
+    cmd_begin(b, ST_SESSIONS, CC_Create); b_u32(b, A); auth_pw(b, "", 0); b_u16(b, 4); b_u16(b, 0); b_u16(b, 0); b_2b(b, t.p, t.n); b_u16(b, 0); b_u32(b, 0); b_free(&t);
+    Rsp r = run(b);
+    uint8_t priv[600], pub[600], dup[700], seed[300]; uint16_t prl = 0, pul = 0, dl = 0, sl = 0; uint32_t ch = 0, sh = 0;
+    if (r.rc == 0) { Rd rd = rsp_params(&r, 0); const uint8_t *x = r_2b(&rd, &prl); const uint8_t *y = r_2b(&rd, &pul); if (rd.err || prl > 600 || pul > 600) prl = 0; else { memcpy(priv, x, prl); memcpy(pub, y, pul); } }
+    if (prl) { cmd_begin(b, ST_SESSIONS, CC_Load); b_u32(b, A); auth_pw(b, "", 0); b_2b(b, priv, prl); b_2b(b, pub, pul); r = run(b); if (r.rc == 0) ch = g32(r.p + 10); }
+    if (ch) { uint8_t nonce[16] = {0}; cmd_begin(b, ST_NO_SESSIONS, CC_StartAuthSession); b_u32(b, RH_NULL); b_u32(b, RH_NULL); b_2b(b, nonce, 16); b_u16(b, 0); b_u8(b, 1); b_u16(b, ALG_NULL); b_u16(b, ALG_SHA256);
+        r = run(b); if (r.rc == 0) sh = g32(r.p + 10); }
+    if (sh) { cmd_begin(b, ST_NO_SESSIONS, CC_PolicyCommandCode); b_u32(b, sh); b_u32(b, 0x14B); run(b);
+        cmd_begin(b, ST_SESSIONS, 0x14B /* Duplicate */); b_u32(b, ch); b_u32(b, B); b_u32(b, 9); b_u32(b, sh); b_u16(b, 0); b_u8(b, 1); b_u16(b, 0); b_u16(b, 0); b_u16(b, ALG_NULL);
+        r = run(b);
+        tr("duplicate rc=%u", r.rc);
+        if (r.rc == 0) { Rd rd = rsp_params(&r, 0); uint16_t el; r_2b(&rd, &el); const uint8_t *x = r_2b(&rd, &dl); const uint8_t *y = r_2b(&rd, &sl); if (rd.err || dl > 700 || sl > 300) dl = 0; else { memcpy(dup, x, dl); memcpy(seed, y, sl); } } }
+    c12_flush(b, ch); c12_flush(b, sh);
+    for (int v = 0; v < 5 && dl; v++) {
+        uint8_t d2[700], s2[300], p2[600]; memcpy(d2, dup, dl); memcpy(s2, seed, sl); memcpy(p2, pub, pul); uint32_t under = B; const char *what = "intact";
+        if (v == 1) { d2[rnd(dl)] ^= 1 << rnd(8); what = "bitflip"; }
+        else if (v == 2) { under = A; what = "wrong-parent"; }
+        else if (v == 3) { s2[2 + rnd(sl - 2)] ^= 1 << rnd(8); what = "seed-bitflip"; }
+        else if (v == 4) { p2[10 + rnd(32)] ^= 1 << rnd(8); what = "public-altered"; }
+        cmd_begin(b, ST_SESSIONS, 0x156 /* Import */); b_u32(b, under); auth_pw(b, "", 0); b_u16(b, 0); b_2b(b, p2, pul); b_2b(b, d2, dl); b_2b(b, s2, sl); b_u16(b, ALG_NULL);
+        r = run(b);
+        tr("import what=%s rc=%u", what, r.rc);
+        if (r.rc != 0) continue;
+        Rd rd = rsp_params(&r, 0); uint16_t ol; const uint8_t *op = r_2b(&rd, &ol); uint8_t out[700]; if (rd.err || ol > 700) continue; memcpy(out, op, ol);
+        /* the imported blob: under the new parent, under the old parent, altered */
+        for (int w = 0; w < 3; w++) { uint8_t m[700]; memcpy(m, out, ol); uint32_t par = w == 1 ? A : B; const char *lw = w == 0 ? "intact" : w == 1 ? "imported-under-old-parent" : "imported-bitflip";
+            if (v != 0 && w == 0) lw = what;     /* an import that must not have succeeded: whatever it produced must not load either */
+            if (w == 2) m[rnd(ol)] ^= 1 << rnd(8);
+            cmd_begin(b, ST_SESSIONS, CC_Load); b_u32(b, par); auth_pw(b, "", 0); b_2b(b, m, ol); b_2b(b, p2, pul); Rsp lr = run(b);
+            tr_begin("load what=%s rc=%u", lw, lr.rc); trhex("pub", p2, pul); if (lr.rc == 0) { uint16_t nl = g16(lr.p + 18); trhex("name", lr.p + 20, nl); c12_flush(b, g32(lr.p + 10)); } tr_end(); }
+    }
+    c12_flush(b, A); c12_flush(b, B);
+}
 static void scen_c12(int histories, int rounds, int thorough) {
     Buf b = {0}; c12_templates();
     for (int hh = 0; hh < histories; hh++) {
@@ -90,6 +132,7 @@ static void scen_c12(int histories, int rounds, int thorough) {
                 else if (chance(40)) { cmd_begin(&b, ST_SESSIONS, CC_EvictControl); b_u32(&b, evict_hier == 2 ? RH_PLATFORM : RH_OWNER); b_u32(&b, evict); auth_pw(&b, "", 0); b_u32(&b, evict); Rsp r = run(&b);
                     tr("evict on=0 hier=%d handle=%u rc=%u", evict_hier, evict, r.rc); if (r.rc == 0) evict = 0; }
                 (void)evict_t; }
+            else if (op < 94 && chance(50)) c12_dup_import(&b);
             else if (op < 97) { /* every transient slot is reclaimable */
                 uint32_t hs[16]; int n = 0; for (; n < 16; n++) { hs[n] = c12_primary(&b, 0, 0, NULL, "fill"); if (!hs[n]) break; }
                 for (int q = 0; q < n; q++) c12_flush(&b, hs[q]);
